@@ -59,6 +59,17 @@ theorem histRdp_int (cfg : Cfg ℝ) {n : ℕ} (hn : 2 ≤ n) (h : Hist ℝ) (hg 
   rw [show (EV.fin (RScalar.ofNat 0) : EV ℝ) = EV.fin (0 : ℝ) by simp]
   rw [histRdpFrom_int cfg hn h hg 0, zero_add]
 
+theorem fin_zero_add (x : EV ℝ) : (EV.fin (0 : ℝ) : EV ℝ).add x = x := by
+  cases x with
+  | fin a => show EV.fin ((0 : ℝ) + a : ℝ) = EV.fin a; simp
+  | pinf => rfl
+  | nan => rfl
+
+theorem mapE_congr {α β : Type} {f g : α → Except Err β} (h : ∀ a, f a = g a) (l : List α) :
+    mapE f l = mapE g l := by
+  have : f = g := funext h
+  rw [this]
+
 /-! ### `np.nanargmin` on finite values -/
 
 theorem argmin_fold_fin {β : Type} (l : List (ℝ × β)) (v0 : ℝ) (a0 : β) :
